@@ -411,10 +411,14 @@ func (c *ctx) apply(o op) (ok bool) {
 func TestC17(t *testing.T) {
 	env := kit.GetEnv()
 	rep := kit.NewReport("C17", env)
-	rep.Rule = "all operation sequences up to depth D over {new(6-12 sizes around every pooled tier), parse(i), clone(i), reply/replyTo(i) and a refused oversize reply(i), set-appendix(i, 6-10 lengths incl. 0, tier-crossing, 10000, 10001), mutate(i), set-link(i,2 links), release(i)} with <= 3 live frames on one shared real builder; after every op every live frame is compared byte-for-byte and field-for-field with the shadow model; non-trivial = the sequence contains a release followed by a new/parse/clone (buffer reuse) or a clone followed by a modification; distinct = distinct op sequence"
+	rep.Rule = "all operation sequences up to depth D over {new(6-12 sizes around every pooled tier), parse(i), clone(i), reply/replyTo(i) and a refused oversize reply(i), set-appendix(i, 6-10 lengths incl. 0, tier-crossing, 10000, 10001), mutate(i), set-link(i,2 links), release(i)} with <= 3 live frames on one shared real builder; after every op every live frame is compared byte-for-byte and field-for-field with the shadow model; plus frames produced by the real reader of an established encrypted link (9 message sizes across the tiers x 2 types x appendix 0/40 x 4 growth steps) under 7 short sequences of {clone, grow appendix in place, grow the clone's appendix, release the original and reuse its buffer}; non-trivial = the sequence contains a release followed by a new/parse/clone (buffer reuse) or a clone followed by a modification; distinct = distinct op sequence"
 	rep.Assumptions = []string{
 		"sync.Pool reuse is made deterministic by GOMAXPROCS(1) and GC off; a gate at start verifies that a released frame object and slice are actually handed out again",
 		"frames are parsed the way the link reader parses them (pooled slice, frame at the link offset)",
+	}
+	var evals, nontrivial, transitions int64
+	if env.Mine(0) {
+		receivedOverLink(t, rep, &evals, &nontrivial)
 	}
 	runtime.GOMAXPROCS(1)
 	debug.SetGCPercent(-1)
@@ -450,7 +454,6 @@ func TestC17(t *testing.T) {
 	rep.Bounds["new_required_sizes"] = sizes
 	rep.Bounds["appendix_lengths"] = apxLens
 
-	var evals, nontrivial, transitions int64
 	pass := func(sizes, apxLens []int, depth int) {
 		var alphabet []op
 		for _, s := range sizes {
